@@ -516,6 +516,11 @@ func (this *EXECodec) forwardARM(src, dst []byte, codeStart, codeEnd int) (uint,
 		return 0, 0, fmt.Errorf("ExeCodec forward failed: Input is not a supported executable format")
 	}
 
+	if codeStart&3 != 0 {
+		// Absolute addresses are stored divided by 4: the code must be 4-byte aligned in the block
+		return 0, 0, fmt.Errorf("ExeCodec forward transform skip: unaligned code section")
+	}
+
 	if codeStart > 0 {
 		copy(dst[dstIdx:], src[0:codeStart])
 		dstIdx += codeStart
